@@ -60,7 +60,9 @@ def _case2(draw):
             ops.append(["rekey", list(cur)])
         else:
             ops.append([kind])
-    return {"keys": keys0, "nvals": nvals, "wrap": wrap, "extra_key": extra, "ops": ops}
+    # plain Python values as binding values, the falsy ones included (0 and '' are values like any other)
+    plain = (not wrap) and draw(st.booleans())
+    return {"keys": keys0, "nvals": nvals, "wrap": wrap, "plain": plain, "extra_key": extra, "ops": ops}
 
 
 def strategy(tier):
@@ -87,8 +89,8 @@ def exhaustive(tier, shard, nshards):
             i += 1
             if i % nshards != shard:
                 continue
-            for wrap in (False, True):
-                yield {"keys": keys, "nvals": nvals, "wrap": wrap, "extra_key": False, "ops": ops}
+            for wrap, plain in ((False, False), (True, False), (False, True)):
+                yield {"keys": keys, "nvals": nvals, "wrap": wrap, "plain": plain, "extra_key": False, "ops": ops}
 
 
 # ----------------------------------------------------------------------------- the check
@@ -113,6 +115,15 @@ def check(case) -> Outcome:
 
         def canon(v):
             return v.value.i if isinstance(v, HashedValue) else ("?", repr(v))
+    elif case.get("plain"):
+        PLAIN = {0: 0, 1: "", 2: 1, STRANGER: "zz"}           # distinct hashable values; the first two are falsy
+        back = {(type(v).__name__, v): i for i, v in PLAIN.items()}
+
+        def val(i):
+            return PLAIN[i]
+
+        def canon(v):
+            return back.get((type(v).__name__, v), ("?", repr(v)))
     else:
         names = {i: f"v{i}" for i in objs}
 
@@ -125,7 +136,7 @@ def check(case) -> Outcome:
     keys = list(case["keys"])
     cache = IndexedCache(list(keys))
     model = []          # list of (binding: dict key->value index, output)
-    classes = ["wrapped" if wrap else "raw", f"keys{len(keys)}"]
+    classes = ["wrapped" if wrap else ("plain_values_incl_falsy" if case.get("plain") else "raw"), f"keys{len(keys)}"]
     nontrivial = False
     n_out = 0
     lookups_compared = 0
